@@ -22,7 +22,7 @@ ASSUMPTIONS = ["streams are re-created with the same seed in construct_model (no
                "the second replication uses the same model object and the same replication settings"]
 
 HIST = ["fresh", "step", "pause", "bounded", "ended", "fault", "cleanup", "init_while_running", "ended_twice", "end_replication",
-        "init_while_starting", "touched"]
+        "init_while_starting", "touched", "other_model"]
 
 
 def plan(tier):
@@ -131,6 +131,16 @@ def run_case(case, ctx):
                 if first["trace"] != want["trace"] or first["stats"] != want["stats"]:
                     ctx.viol("refused-initialize-disturbed-the-run", {**where, "got": str(first["trace"])[:400], "fresh": str(want["trace"])[:400]})
                     return
+        elif hist == "other_model":
+            # the simulator serves a second model object (same program) in between, then the first model again
+            other = type(a.model)(a.sim)
+            a.sim.__dict__["_verif_in_init"] = True
+            try:
+                a.sim.initialize(other, a.replication)
+            finally:
+                a.sim.__dict__["_verif_in_init"] = False
+            for _ in range(case["k"]):
+                a.cmd("step")
         elif hist == "touched":
             # initialised, never started, but used from outside: an extra event scheduled, streams drawn from, statistics fed
             try:
